@@ -403,11 +403,11 @@ class UBXReader:
                 raise UBXParseError(
                     (f"Invalid message header {hdr}" f" - should be {UBX_HDR}")
                 )
-            if leni != bytes2val(lenb, U2):
+            if lenm - 8 != bytes2val(lenb, U2):
                 raise UBXParseError(
                     (
                         f"Invalid payload length {lenb}"
-                        f" - should be {val2bytes(leni, U2)}"
+                        f" - should be {max(lenm - 8, 0)} bytes"
                     )
                 )
             if ckm != ckv:
